@@ -2,11 +2,11 @@ package main
 
 import (
 	"fmt"
-	"regexp"
 	"go/constant"
 	"go/token"
 	"go/types"
 	"math/big"
+	"regexp"
 	"sort"
 	"strings"
 
@@ -81,6 +81,15 @@ type loopInfo struct {
 	// writes to it go; nil entry = some write is not of that simple form
 	via     map[string][]ssa.Value
 	viaBad  map[string]bool
+	viaExpr map[string][]viaExpr // written at a location given by a spec path expression over loop-invariant arguments
+}
+
+type viaExpr struct {
+	e      *Expr
+	args   map[string]ssa.Value
+	ptypes map[string]types.Type
+	pkg    *types.Package
+	kind   string // "map" | "elems" | "field"
 }
 
 type FnTrans struct {
@@ -91,55 +100,60 @@ type FnTrans struct {
 	inst  string
 	subst map[string]types.Type
 
-	lines   []string
-	dtDecl  []string
-	dtSeen  map[string]bool
-	declared map[string]bool
-	compSort map[string]string
-	obls    []*Obligation
-	vals    map[ssa.Value]Val
-	entry   *State
-	cur     *State
-	guard   string // current reach condition
-	blkOut  map[*ssa.BasicBlock]*State
-	reach   map[*ssa.BasicBlock]string
-	edgeC   map[[2]int]string
-	loops   map[*ssa.BasicBlock]*loopInfo
-	curLoops []*loopInfo
-	nfresh  int
-	counters map[string]int
-	abstr   map[string]bool
-	trusted map[string]bool
-	defers  []deferRec
-	locals  map[string][]localDef
-	failed  error
-	strs    map[string]string
-	typeIDs map[string]int
-	held    []string
-	retCount int
-	paramVals map[string]Val
-	paramTypes map[string]types.Type
-	recvName string
-	resNames []string
-	resTypes []types.Type
-	ghostAtReturn []*Clause
-	curInstr ssa.Instruction
-	loopPre map[*ssa.BasicBlock]*State
-	noGuardCheck bool
-	slicedArrays []slicedArr
-	havocAll bool
-	useBytes bool
-	sentinels map[string]string
-	ranges map[*ssa.Range]*rangeState
-	ghostDone map[*ssa.Return]bool
-	earlyRes map[ssa.Value]string
-	compT map[string]types.Type
-	gaddr map[string]string
+	lines            []string
+	dtDecl           []string
+	dtSeen           map[string]bool
+	declared         map[string]bool
+	compSort         map[string]string
+	obls             []*Obligation
+	vals             map[ssa.Value]Val
+	entry            *State
+	cur              *State
+	guard            string // current reach condition
+	blkOut           map[*ssa.BasicBlock]*State
+	reach            map[*ssa.BasicBlock]string
+	edgeC            map[[2]int]string
+	loops            map[*ssa.BasicBlock]*loopInfo
+	curLoops         []*loopInfo
+	nfresh           int
+	counters         map[string]int
+	abstr            map[string]bool
+	trusted          map[string]bool
+	defers           []deferRec
+	locals           map[string][]localDef
+	failed           error
+	strs             map[string]string
+	typeIDs          map[string]int
+	held             []string
+	retCount         int
+	paramVals        map[string]Val
+	paramTypes       map[string]types.Type
+	recvName         string
+	resNames         []string
+	resTypes         []types.Type
+	ghostAtReturn    []*Clause
+	curInstr         ssa.Instruction
+	loopPre          map[*ssa.BasicBlock]*State
+	noGuardCheck     bool
+	slicedArrays     []slicedArr
+	havocAll         bool
+	useBytes         bool
+	sentinels        map[string]string
+	ranges           map[*ssa.Range]*rangeState
+	ghostDone        map[*ssa.Return]bool
+	earlyRes         map[ssa.Value]string
+	compT            map[string]types.Type
+	gaddr            map[string]string
 	mayHavePublished bool
-	tfBound string
-	staticArgs map[string]ssa.Value
-	viaCalls bool
-	viaNoted map[string]bool
+	tfBound          string
+	staticArgs       map[string]ssa.Value
+	viaCalls         bool
+	viaNoted         map[string]bool
+	inRequires       bool
+	heldAtEntry      map[string][]string // lock component -> refs that the contract requires to be held at entry
+	entryLocksDone   bool
+	autoInv          map[*ssa.BasicBlock][3]string
+	autoPhi          map[*ssa.BasicBlock]*ssa.Phi
 }
 
 type deferRec struct {
@@ -263,6 +277,9 @@ func (t *FnTrans) obligeNamed(name, kind, goal, note string) {
 		o.Pos = t.eng.prog.Fset.Position(t.curInstr.Pos())
 	}
 	t.obls = append(t.obls, o)
+	if kind == "post" || kind == "frame" || kind == "owed.exit" {
+		return // nothing follows a return on this path: assuming the goal would only add noise to later VCs
+	}
 	t.assume(goal)
 }
 
@@ -488,7 +505,7 @@ func (t *FnTrans) rangeFact(x string, T types.Type) string {
 	}
 	switch T.Underlying().(type) {
 	case *types.Slice:
-		return app("wf-slice", x)
+		return and(app("wf-slice", x), app("<", app("s.base", x), t.get("$alloc")))
 	case *types.Pointer, *types.Map, *types.Chan, *types.Interface, *types.Signature:
 		if _, ok := T.(*types.TypeParam); ok {
 			return "true"
@@ -519,6 +536,9 @@ func (t *FnTrans) get(comp string) string {
 		t.typedFresh(comp, n)
 		if strings.HasPrefix(comp, "TD.") {
 			t.emit(fmt.Sprintf("(assert (forall ((td$r Int)) (! (>= (select %s td$r) 0) :pattern ((select %s td$r)))))", n, n))
+		}
+		if strings.HasPrefix(comp, "L.") && t.entryLocksDone {
+			t.entryLockAxiom(comp, n)
 		}
 	}
 	if _, ok := t.entry.H[comp]; !ok {
@@ -732,6 +752,16 @@ func (t *FnTrans) freshVersion(comp, hint string) string {
 	return n
 }
 
+// entryLockAxiom: a function is entered holding no monitor lock except those its contract requires
+// (requires held(x.mu) / rheld(x.mu)).
+func (t *FnTrans) entryLockAxiom(comp, entryTerm string) {
+	var ex []string
+	for _, r := range t.heldAtEntry[comp] {
+		ex = append(ex, not(eq("el$r", r)))
+	}
+	t.emit(fmt.Sprintf("(assert (forall ((el$r Int)) (! %s :pattern ((select %s el$r)))))", implies(and(ex...), eq(app("select", entryTerm, "el$r"), "0")), entryTerm))
+}
+
 // fieldPtr: pointer to field i of the struct pointed to by p.
 func (t *FnTrans) fieldPtr(p *Ptr, i int) *Ptr {
 	switch p.Kind {
@@ -908,7 +938,7 @@ func (t *FnTrans) findLoops() {
 			if s.Dominates(b) { // back edge b -> s
 				l := t.loops[s]
 				if l == nil {
-					l = &loopInfo{head: s, body: map[*ssa.BasicBlock]bool{s: true}, writes: map[string]bool{}, via: map[string][]ssa.Value{}, viaBad: map[string]bool{}}
+					l = &loopInfo{head: s, body: map[*ssa.BasicBlock]bool{s: true}, writes: map[string]bool{}, via: map[string][]ssa.Value{}, viaBad: map[string]bool{}, viaExpr: map[string][]viaExpr{}}
 					t.loops[s] = l
 					heads = append(heads, s)
 				}
